@@ -666,3 +666,47 @@ def alpha_text(node, fnode):
     t = T().visit(copy.deepcopy(node))
     import re
     return re.sub(r'V(\d+)__alpha', r'$\1', u(t))
+
+
+# ---------------------------------------------------------------------- role lookups shared by the property checks
+def returned_closure(ctx, fi):
+    """The nested function (FuncInfo) or lambda a factory returns."""
+    from .loader import own_nodes
+    rets = [n for n in own_nodes(fi.node) if isinstance(n, ast.Return) and n.value is not None]
+    if len(rets) != 1:
+        return None
+    v = rets[0].value
+    if isinstance(v, ast.Lambda):
+        return ctx.repo.func_of_node.get(id(v))
+    if isinstance(v, ast.Name):
+        for n in own_nodes(fi.node):
+            if isinstance(n, ast.FunctionDef) and n.name == v.id:
+                return ctx.repo.func_of_node.get(id(n))
+    return None
+
+
+def resolved_callee(ctx, call, fi):
+    from .loader import FuncInfo
+    tg = [t for t in ctx.res._resolve_callee(call.func, fi.module, fi) if isinstance(t, FuncInfo)]
+    return tg[0] if len(tg) == 1 else None
+
+
+def generator_wrapper_of(ctx, step):
+    """The one generator function a package step calls (the row wrapper it hands a selected resource to)."""
+    from .loader import AnalysisError, own_nodes
+    out = []
+    for c in own_nodes(step.node):
+        if isinstance(c, ast.Call):
+            h = resolved_callee(ctx, c, step)
+            if h is not None and h.is_generator and h not in out:
+                out.append(h)
+    if len(out) != 1:
+        raise AnalysisError('%s: expected one row-wrapper call, found %d' % (step.qualname, len(out)))
+    return out[0]
+
+
+def toplevel_qualname(fi):
+    """module:TopLevelName of the outermost def / class enclosing fi - the identity used for findings in nested, privately named
+    functions (their own names are an implementation detail a refactoring may change)."""
+    mod, q = fi.qualname.split(':', 1)
+    return mod + ':' + q.split('.')[0]
